@@ -1,6 +1,6 @@
 """C06 - scalar multiplication returns [k]P (partial claim: dispatch, extents, recoding carry, GLV constants)."""
 import os
-from .. import scalar
+from .. import guards, scalar
 from .. import buildmodel as bm
 
 EXPL = ('Partial claim. [k]P for all k and the decomposition arithmetic are value-level and NOT decided. Decided: '
@@ -20,6 +20,8 @@ def run(ctx):
     ctx.level = 'other'
     ctx.assumptions = ['digit-indexed table lookups and the decomposition arithmetic are not decided']
     for cfg, prog in ctx.programs().items():
+        n = guards.rule_defout(ctx, cfg, prog, name_filter=lambda f: 'Fq12' not in f['qn'] and 'miller' not in f['qn'])
+        ctx.floor('R-DEFOUT accumulation functions[%s]' % cfg, n, 4)
         scalar.rule_dispatch(ctx, cfg, prog)
         scalar.rule_carry(ctx, cfg, prog)
         scalar.rule_digit_guard(ctx, cfg, prog)
